@@ -301,6 +301,50 @@ mutual
     | t :: ts => wf tbl t && wfList tbl ts
 end
 
+/-! ## What the formatter may not look at
+
+Two parse trees are *equivalent* when they have the same productions node by node and the
+same tokens, except that layout tokens (Indent, Dedent, newline: the source's indentation
+and line ends) may carry any text and `Documentation` tokens may differ in trailing
+blanks.  The property statement ("the same token sequence up to whitespace, blank lines
+and trailing blanks in comments/documentation") allows the formatter to change exactly
+these; idempotence needs the converse: the formatter's output must not *depend* on them. -/
+
+def docSym : String := "Documentation"
+
+def tokEquiv (s : String) (x x' : Str) : Bool :=
+  isLayoutSym s || (if s == docSym then rstrip x == rstrip x' else x == x')
+
+mutual
+  def equivT : Tree → Tree → Bool
+    | .tok s x, .tok s' x' => s == s' && tokEquiv s x x'
+    | .node p cs, .node p' cs' => p == p' && equivL cs cs'
+    | _, _ => false
+  def equivL : List Tree → List Tree → Bool
+    | [], [] => true
+    | t :: ts, t' :: ts' => equivT t t' && equivL ts ts'
+    | _, _ => false
+end
+
+/-- Table obligation for that: in every registered production, a right-hand-side position
+that holds a layout terminal is one the handler ignores (`Handler.dropped`; the converse of
+`dropOK`), and a `Documentation` terminal is only ever handed to `_doc`, which strips its
+trailing blanks before anything measures it. -/
+def normPos (h : Handler) : Nat → List String → Bool
+  | _, [] => true
+  | i, s :: rest =>
+    (!isLayoutSym s || h.dropped.contains i) && (s != docSym || h == .docRstrip) &&
+      normPos h (i + 1) rest
+
+def normCore (r : Option Handler) (rhs : List String) : Bool :=
+  match r with
+  | none => false
+  | some h => normPos h 0 rhs
+
+def normOK (e : String × List String × String × Bool) : Bool := normCore (resolve e) e.2.1
+
+def tableNormal (tbl : Table) : Bool := tbl.all normOK
+
 /-! ## Content of values -/
 
 def Row.content (r : Row) : Str := despace r.columns.flatten
@@ -328,8 +372,9 @@ transcribes, per handler, between which arguments no blank is inserted (read off
 format strings / joins of format_emb.py; columns of a row are always blank-separated by
 `_columnize`).  `allowedGlued` is the audited list of computed pairs: for each of them
 the harness checks on sample texts that the real tokenizer splits the juxtaposition
-back into the two tokens.  The one computed pair that must not be glued is
-`("-", "-")` (finding `minus-minus-juxtaposed`). -/
+back into the two tokens.  The one pair that must not be glued, `("-", "-")` (`a - -b`
+would become `a--b`, a documentation token), is kept apart by
+`_additive_expression_right` (`keptApart`); no other handler can produce it. -/
 
 /-- Arguments `i < j` of handler `h` are printed with nothing in between (when every
 argument strictly between them is empty). -/
@@ -350,7 +395,14 @@ def glue : Handler → Nat → Nat → Bool
   | .inlineBits, 1, 2 => true
   | .inlineType, 2, 4 => true
   | .inlineType, 3, 4 => true
-  | .additiveExpressionRight, 0, 1 => true   -- (glued unless both are "-")
+  | .additiveExpressionRight, 0, 1 => true   -- (except `keptApart`)
+  | _, _, _ => false
+
+/-- Terminal pairs (last terminal of the left argument, first terminal of the right one)
+between which the handler inserts a blank although it glues the two arguments otherwise:
+`_additive_expression_right` tests `operator == "-" and operand.startswith("-")`. -/
+def keptApart : Handler → String → String → Bool
+  | .additiveExpressionRight, x, y => x == "\"-\"" && y == "\"-\""
   | _, _, _ => false
 
 abbrev Grammar := List (String × List String)
@@ -428,7 +480,8 @@ def pairsOfEntry (tbl : Table) (g : Grammar) (ns : List String) (fs ls : List (S
           match rhs[i]?, rhs[j]? with
           | some a, some b =>
             if lead.contains b then [] else
-            (symEdge g ls a).flatMap fun x => (symEdge g fs b).map fun y => (x, y)
+            (symEdge g ls a).flatMap fun x =>
+              ((symEdge g fs b).filter fun y => !keptApart h x y).map fun y => (x, y)
           | _, _ => []
         else []
 
@@ -439,9 +492,6 @@ def gluedPairs (tbl : Table) (g : Grammar) : List (String × String) :=
   let ls := edgeSets g true
   let lead := leadBlankSyms tbl g
   (tbl.flatMap (pairsOfEntry tbl g ns fs ls lead)).foldl (fun a x => if a.contains x then a else a ++ [x]) []
-
-/-- Pairs that are known to be wrongly glued (open finding). -/
-def knownBadGlued : List (String × String) := [("\"-\"", "\"-\"")]
 
 def allowedGlued : List (String × String) := [
   ("\"[\"", "\"(\""),
@@ -685,8 +735,10 @@ def allowedGlued : List (String × String) := [
   ("Number", "\"[\"")
 ]
 
-/-- The separability obligation on the regenerated table. -/
+/-- The separability obligation on the regenerated table: every terminal pair some handler
+prints with nothing in between is in the audited list (none of whose pairs the tokenizer
+merges or splits differently — sampled on the real tokenizer on every run). -/
 def gluedOK (tbl : Table) (g : Grammar) : Bool :=
-  (gluedPairs tbl g).all (fun p => allowedGlued.contains p || knownBadGlued.contains p)
+  (gluedPairs tbl g).all (fun p => allowedGlued.contains p)
 
 end Emboss.Fmt
